@@ -542,6 +542,8 @@ def make_service_info(desc: Dict[str, Any]):
         kw['host_ttl'] = desc['host_ttl']
     if 'other_ttl' in desc:
         kw['other_ttl'] = desc['other_ttl']
+    if desc.get('interface_index') is not None:
+        kw['interface_index'] = desc['interface_index']
     return ServiceInfo(desc['type'], desc['name'], desc.get('port', 80), desc.get('weight', 0), desc.get('priority', 0),
                        props, desc.get('server'), addresses=addrs, **kw)
 
